@@ -95,7 +95,7 @@ def _gen_lamps(ch: Chooser):
 
 def gen_case(ch: Chooser, tier: str = "quick") -> dict:
     for _attempt in range(30):
-        if ch.chance(1, 3):
+        if ch.chance(1, 8):   # the balanced-loader shape (always the known finding on the pinned tree)
             stmts, n = gen.loader_program(ch)
             inputs: list = []
             containers = []
